@@ -26,9 +26,11 @@ Qed.
 
 Lemma mem_str_false : forall s l, mem_str s l = false <-> ~ In s l.
 Proof.
-  intros s l. rewrite <- mem_str_In. destruct (mem_str s l); split; intro H; try reflexivity; try discriminate.
-  - intro H'. discriminate.
+  intros s l. rewrite <- mem_str_In. destruct (mem_str s l); split; intro H.
+  - discriminate.
   - exfalso. apply H. reflexivity.
+  - intro H'. discriminate.
+  - reflexivity.
 Qed.
 
 (** * find_class decides by membership of the joined string, exactly *)
@@ -327,11 +329,12 @@ Qed.
 Lemma list_set_nth_safe : forall al n v xs, safe_b al v = true -> forallb (safe_b al) xs = true ->
   forallb (safe_b al) (list_set_nth n v xs) = true.
 Proof.
-  intros al n v xs Hv. revert n. induction xs as [|x r IH]; intros n; cbn; [auto|].
-  intro E. apply andb_true_iff in E. destruct E as [E1 E2].
-  destruct n; cbn.
-  - rewrite Hv, E2. reflexivity.
-  - rewrite E1, (IH n E2). reflexivity.
+  intros al n v xs Hv. revert n. induction xs as [|x r IH]; intros n.
+  - destruct n; cbn; auto.
+  - cbn [forallb]. intro E. apply andb_true_iff in E. destruct E as [E1 E2].
+    destruct n; cbn.
+    + rewrite Hv, E2. reflexivity.
+    + rewrite E1, (IH n E2). reflexivity.
 Qed.
 
 Lemma list_set_all_safe : forall al ps xs xs', list_set_all ps xs = Some xs' ->
@@ -368,3 +371,285 @@ Proof. intros al p. unfold persistent_load. destruct p; try reflexivity. destruc
 
 Lemma glob_obj_safe : forall al m n g, mem_str (dotted m n) al = true -> safe_b al (glob_obj m n g) = true.
 Proof. intros al m n g H. destruct g; cbn; try exact H. reflexivity. Qed.
+
+(** ** every step keeps the machine safe *)
+
+Definition sres_safe (al : list pystr) (r : sres) : Prop :=
+  match r with
+  | SNext s => st_safe al s
+  | SStop v s => safe_b al v = true /\ st_safe al s
+  | SFail _ s => st_safe al s
+  end.
+
+Lemma set_stack_safe : forall al st s, st_safe al st -> forallb (safe_b al) s = true -> st_safe al (set_stack st s).
+Proof. intros al st s [Hs Hm He Ht] H. constructor; cbn; assumption. Qed.
+
+Lemma push_safe : forall al st o, st_safe al st -> safe_b al o = true -> st_safe al (push o st).
+Proof. intros al st o H Ho. apply set_stack_safe; [exact H|]. cbn. rewrite Ho. apply (safe_stack _ _ H). Qed.
+
+Lemma emit_safe : forall al st e, st_safe al st -> ev_safe_b al e = true -> st_safe al (emit e st).
+Proof. intros al st e [Hs Hm He Ht] H. constructor; cbn; try assumption. rewrite H, Ht. reflexivity. Qed.
+
+Lemma fresh_safe : forall al st, st_safe al st -> st_safe al (fresh st).
+Proof. intros al st [Hs Hm He Ht]. constructor; cbn; assumption. Qed.
+
+Lemma do_global_safe : forall w st m n k,
+  st_safe (allow w) st ->
+  (forall st1 g, st_safe (allow w) st1 -> safe_b (allow w) g = true -> sres_safe (allow w) (k st1 g)) ->
+  sres_safe (allow w) (do_global w st m n k).
+Proof.
+  intros w st m n k Hst Hk. unfold do_global.
+  destruct (find_class w m n) eqn:E; cbn; try exact Hst.
+  apply find_class_resolved in E. destruct E as [Ha _]. apply mem_str_In in Ha.
+  apply Hk.
+  - apply emit_safe; [exact Hst|]. exact Ha.
+  - apply glob_obj_safe. exact Ha.
+Qed.
+
+Lemma do_call_safe : forall w st k callee args rest,
+  st_safe (allow w) st -> safe_b (allow w) callee = true -> safe_b (allow w) args = true ->
+  forallb (safe_b (allow w)) rest = true ->
+  sres_safe (allow w) (do_call w st k callee args rest).
+Proof.
+  intros w st k callee args rest Hst Hc Ha Hr. unfold do_call.
+  assert (H1 : st_safe (allow w) (emit (ECall k callee args) st)).
+  { apply emit_safe; [exact Hst|]. cbn. rewrite Hc, Ha. reflexivity. }
+  destruct (call_ok w k callee args); cbn; [|exact H1].
+  apply fresh_safe. apply set_stack_safe; [exact H1|]. cbn. rewrite Hc, Ha, Hr. reflexivity.
+Qed.
+
+Lemma do_put_safe : forall al st i, st_safe al st -> sres_safe al (do_put st i).
+Proof.
+  intros al st i Hst. unfold do_put. destruct (pop1 (stack st)) as [[v r]|] eqn:E; cbn; [|exact Hst].
+  destruct (pop1_safe al _ _ _ E (safe_stack _ _ Hst)) as [Hv _].
+  destruct Hst as [Hs Hm He Ht]. constructor; cbn; try assumption. apply memo_put_safe; assumption.
+Qed.
+
+Lemma do_get_safe : forall al st i, st_safe al st -> sres_safe al (do_get st i).
+Proof.
+  intros al st i Hst. unfold do_get. destruct (memo_get i (memo st)) as [v|] eqn:E; cbn; [|exact Hst].
+  apply push_safe; [exact Hst|]. apply (memo_get_safe al i _ v E (safe_memo _ _ Hst)).
+Qed.
+
+Lemma do_ext_safe : forall w st c, st_safe (allow w) st -> sres_safe (allow w) (do_ext w st c).
+Proof.
+  intros w st c Hst. unfold do_ext. destruct (Z.leb c 0); [exact Hst|].
+  destruct (memo_get c (ecache st)) as [o|] eqn:E.
+  - assert (Ho : safe_b (allow w) o = true) by apply (memo_get_safe _ c _ o E (safe_ecache _ _ Hst)).
+    cbn. apply push_safe; [|exact Ho]. apply emit_safe; [exact Hst | exact Ho].
+  - destruct (ext_registry w c) as [[m n]|]; [|exact Hst].
+    apply do_global_safe; [exact Hst|]. intros st1 g H1 Hg. cbn.
+    apply push_safe; [|exact Hg]. destruct H1 as [Hs Hm He Ht]. constructor; cbn; try assumption.
+    apply memo_put_safe; assumption.
+Qed.
+
+Lemma do_extend_safe : forall al st items below, st_safe al st ->
+  forallb (safe_b al) items = true -> forallb (safe_b al) below = true ->
+  sres_safe al (do_extend st items below).
+Proof.
+  intros al st items below Hst Hi Hb. unfold do_extend.
+  destruct (pop1 below) as [[t r]|] eqn:E; [|exact Hst].
+  destruct (pop1_safe al _ _ _ E Hb) as [Ht _].
+  destruct items as [|x xs]; [apply set_stack_safe; assumption|].
+  destruct t; try exact Hst. cbn.
+  apply mutate_safe; [|apply set_stack_safe; assumption].
+  cbn [safe_b] in *. apply forallb_app_true. split; assumption.
+Qed.
+
+Lemma do_setitems_safe : forall al st items below, st_safe al st ->
+  forallb (safe_b al) items = true -> forallb (safe_b al) below = true ->
+  sres_safe al (do_setitems st items below).
+Proof.
+  intros al st items below Hst Hi Hb. unfold do_setitems.
+  destruct (pop1 below) as [[t r]|] eqn:E; [|exact Hst].
+  destruct (pop1_safe al _ _ _ E Hb) as [Ht _].
+  destruct items as [|x xs]; [apply set_stack_safe; assumption|].
+  destruct (pairs_of (x :: xs)) as [ps|] eqn:Ep; [|exact Hst].
+  pose proof (pairs_of_safe al _ _ Ep Hi) as Hps.
+  destruct t; try exact Hst.
+  - destruct (list_set_all ps xs0) as [xs'|] eqn:El; [|exact Hst]. cbn.
+    apply mutate_safe; [|apply set_stack_safe; assumption].
+    cbn [safe_b] in *. apply (list_set_all_safe al _ _ _ El Hps Ht).
+  - destruct (dict_set_all ps kvs) as [kvs'|] eqn:Ed; [|exact Hst]. cbn.
+    apply mutate_safe; [|apply set_stack_safe; assumption].
+    cbn [safe_b] in *. apply (dict_set_all_safe al _ _ _ Ed Hps Ht).
+Qed.
+
+Lemma do_additems_safe : forall al st items below, st_safe al st ->
+  forallb (safe_b al) items = true -> forallb (safe_b al) below = true ->
+  sres_safe al (do_additems st items below).
+Proof.
+  intros al st items below Hst Hi Hb. unfold do_additems.
+  destruct (pop1 below) as [[t r]|] eqn:E; [|exact Hst].
+  destruct (pop1_safe al _ _ _ E Hb) as [Ht _].
+  destruct items as [|x xs]; [apply set_stack_safe; assumption|].
+  destruct t; try exact Hst.
+  destruct (set_add_all (x :: xs) xs0) as [xs'|] eqn:Es; [|exact Hst]. cbn.
+  apply mutate_safe; [|apply set_stack_safe; assumption].
+  cbn [safe_b] in *. apply (set_add_all_safe al _ _ _ Es Hi Ht).
+Qed.
+
+Lemma with_mark_safe : forall al st k, st_safe al st ->
+  (forall items below, forallb (safe_b al) items = true -> forallb (safe_b al) below = true ->
+                       sres_safe al (k items below)) ->
+  sres_safe al (with_mark st k).
+Proof.
+  intros al st k Hst Hk. unfold with_mark.
+  destruct (to_mark (stack st) []) as [[items below]|] eqn:E; [|exact Hst].
+  destruct (to_mark_safe al _ _ _ _ E (safe_stack _ _ Hst) eq_refl) as [Hi Hb]. apply Hk; assumption.
+Qed.
+
+Ltac pop_stack Hst E v r Hv Hr :=
+  match goal with
+  | |- context [pop1 ?s] =>
+      destruct (pop1 s) as [[v r]|] eqn:E; [|exact Hst];
+      match type of E with
+      | pop1 _ = Some _ =>
+          first [ destruct (pop1_safe _ _ _ _ E (safe_stack _ _ Hst)) as [Hv Hr]
+                | idtac ]
+      end
+  end.
+
+Lemma step_safe : forall w st o, st_safe (allow w) st -> sres_safe (allow w) (step w st o).
+Proof.
+  intros w st o Hst. set (al := allow w) in *.
+  pose proof (safe_stack _ _ Hst) as Hs.
+  destruct o; cbn [step].
+  - (* PROTO *) destruct (_ && _)%bool; exact Hst.
+  - exact Hst.
+  - (* STOP *) destruct (pop1 (stack st)) as [[v r]|] eqn:E; [|exact Hst].
+    destruct (pop1_safe al _ _ _ E Hs) as [Hv Hr]. split; [exact Hv|]. apply set_stack_safe; assumption.
+  - (* POP *) destruct (stack st) as [|x r] eqn:E; [exact Hst|]. apply set_stack_safe; [exact Hst|].
+    cbn in Hs. apply andb_true_iff in Hs. apply Hs.
+  - (* POP_MARK *) apply with_mark_safe; [exact Hst|]. intros items below Hi Hb. apply set_stack_safe; assumption.
+  - (* DUP *) destruct (pop1 (stack st)) as [[v r]|] eqn:E; [|exact Hst].
+    destruct (pop1_safe al _ _ _ E Hs) as [Hv Hr]. apply push_safe; assumption.
+  - (* MARK *) apply push_safe; [exact Hst | reflexivity].
+  - apply do_put_safe; exact Hst.
+  - destruct (Z.ltb i 0); [exact Hst | apply do_put_safe; exact Hst].
+  - apply do_put_safe; exact Hst.
+  - apply do_put_safe; exact Hst.
+  - apply do_get_safe; exact Hst.
+  - apply do_get_safe; exact Hst.
+  - apply do_get_safe; exact Hst.
+  - apply push_safe; [exact Hst | reflexivity].
+  - apply push_safe; [exact Hst | reflexivity].
+  - apply push_safe; [exact Hst | reflexivity].
+  - apply push_safe; [exact Hst | reflexivity].
+  - apply push_safe; [exact Hst | reflexivity].
+  - apply push_safe; [exact Hst | reflexivity].
+  - apply push_safe; [exact Hst | reflexivity].
+  - apply push_safe; [exact Hst | reflexivity].
+  - apply push_safe; [exact Hst | reflexivity].
+  - apply push_safe; [exact Hst | reflexivity].
+  - apply push_safe; [exact Hst | reflexivity].
+  - apply push_safe; [exact Hst | reflexivity].
+  - apply push_safe; [exact Hst | reflexivity].
+  - apply push_safe; [exact Hst | reflexivity].
+  - apply push_safe; [exact Hst | reflexivity].
+  - apply push_safe; [exact Hst | reflexivity].
+  - apply push_safe; [exact Hst | reflexivity].
+  - apply push_safe; [exact Hst | reflexivity].
+  - apply push_safe; [exact Hst | reflexivity].
+  - apply push_safe; [exact Hst | reflexivity].
+  - (* EMPTY_LIST *) apply fresh_safe. apply push_safe; [exact Hst | reflexivity].
+  - apply fresh_safe. apply push_safe; [exact Hst | reflexivity].
+  - apply push_safe; [exact Hst | reflexivity].
+  - apply fresh_safe. apply push_safe; [exact Hst | reflexivity].
+  - (* APPEND *) destruct (pop1 (stack st)) as [[v r]|] eqn:E; [|exact Hst].
+    destruct (pop1_safe al _ _ _ E Hs) as [Hv Hr]. apply do_extend_safe; [exact Hst| |exact Hr]. cbn. rewrite Hv. reflexivity.
+  - apply with_mark_safe; [exact Hst|]. intros. apply do_extend_safe; assumption.
+  - (* SETITEM *) destruct (pop1 (stack st)) as [[v r]|] eqn:E; [|exact Hst].
+    destruct (pop1_safe al _ _ _ E Hs) as [Hv Hr].
+    destruct (pop1 r) as [[k r']|] eqn:E'; [|exact Hst].
+    destruct (pop1_safe al _ _ _ E' Hr) as [Hk Hr'].
+    apply do_setitems_safe; [exact Hst| |exact Hr']. cbn. rewrite Hk, Hv. reflexivity.
+  - apply with_mark_safe; [exact Hst|]. intros. apply do_setitems_safe; assumption.
+  - apply with_mark_safe; [exact Hst|]. intros. apply do_additems_safe; assumption.
+  - (* TUPLE *) apply with_mark_safe; [exact Hst|]. intros items below Hi Hb.
+    apply set_stack_safe; [exact Hst|]. cbn. rewrite Hi, Hb. reflexivity.
+  - (* TUPLE1 *) destruct (pop1 (stack st)) as [[a r]|] eqn:E; [|exact Hst].
+    destruct (pop1_safe al _ _ _ E Hs) as [Ha Hr]. apply set_stack_safe; [exact Hst|]. cbn. rewrite Ha, Hr. reflexivity.
+  - (* TUPLE2 *) destruct (pop1 (stack st)) as [[b r]|] eqn:E; [|exact Hst].
+    destruct (pop1_safe al _ _ _ E Hs) as [Hb Hr].
+    destruct (pop1 r) as [[a r']|] eqn:E'; [|exact Hst].
+    destruct (pop1_safe al _ _ _ E' Hr) as [Ha Hr'].
+    apply set_stack_safe; [exact Hst|]. cbn. rewrite Ha, Hb, Hr'. reflexivity.
+  - (* TUPLE3 *) destruct (pop1 (stack st)) as [[c r]|] eqn:E; [|exact Hst].
+    destruct (pop1_safe al _ _ _ E Hs) as [Hc Hr].
+    destruct (pop1 r) as [[b r']|] eqn:E'; [|exact Hst].
+    destruct (pop1_safe al _ _ _ E' Hr) as [Hb Hr'].
+    destruct (pop1 r') as [[a r'']|] eqn:E''; [|exact Hst].
+    destruct (pop1_safe al _ _ _ E'' Hr') as [Ha Hr''].
+    apply set_stack_safe; [exact Hst|]. cbn. rewrite Ha, Hb, Hc, Hr''. reflexivity.
+  - (* FROZENSET *) apply with_mark_safe; [exact Hst|]. intros items below Hi Hb.
+    destruct (set_add_all items []) as [xs|] eqn:Es; [|exact Hst].
+    apply set_stack_safe; [exact Hst|]. cbn. rewrite Hb.
+    rewrite (set_add_all_safe al _ _ _ Es Hi eq_refl). reflexivity.
+  - (* LIST *) apply with_mark_safe; [exact Hst|]. intros items below Hi Hb.
+    apply fresh_safe. apply set_stack_safe; [exact Hst|]. cbn. rewrite Hi, Hb. reflexivity.
+  - (* DICT *) apply with_mark_safe; [exact Hst|]. intros items below Hi Hb.
+    destruct (pairs_of items) as [ps|] eqn:Ep; [|exact Hst].
+    destruct (dict_set_all ps []) as [kvs|] eqn:Ed; [|exact Hst].
+    apply fresh_safe. apply set_stack_safe; [exact Hst|]. cbn. rewrite Hb.
+    rewrite (dict_set_all_safe al _ _ _ Ed (pairs_of_safe al _ _ Ep Hi) eq_refl). reflexivity.
+  - (* GLOBAL *) destruct (_ || _)%bool; [exact Hst|].
+    apply do_global_safe; [exact Hst|]. intros st1 g H1 Hg. apply push_safe; assumption.
+  - (* STACK_GLOBAL *) destruct (pop1 (stack st)) as [[n r]|] eqn:E; [|exact Hst].
+    destruct (pop1_safe al _ _ _ E Hs) as [Hn Hr].
+    destruct (pop1 r) as [[m r']|] eqn:E'; [|exact Hst].
+    destruct (pop1_safe al _ _ _ E' Hr) as [Hm Hr'].
+    destruct m; try exact Hst. destruct n; try exact Hst.
+    apply do_global_safe; [apply set_stack_safe; assumption|]. intros st1 g H1 Hg. apply push_safe; assumption.
+  - (* INST *) apply with_mark_safe; [exact Hst|]. intros items below Hi Hb.
+    destruct (_ || _)%bool; [exact Hst|].
+    apply do_global_safe; [apply set_stack_safe; assumption|]. intros st1 g H1 Hg.
+    apply do_call_safe; assumption.
+  - (* OBJ *) apply with_mark_safe; [exact Hst|]. intros items below Hi Hb.
+    destruct items as [|cls args]; [exact Hst|]. cbn in Hi. apply andb_true_iff in Hi. destruct Hi as [Hc Ha].
+    apply do_call_safe; [apply set_stack_safe; assumption | exact Hc | exact Ha | exact Hb].
+  - (* NEWOBJ *) destruct (pop1 (stack st)) as [[args r]|] eqn:E; [|exact Hst].
+    destruct (pop1_safe al _ _ _ E Hs) as [Ha Hr].
+    destruct args; try exact Hst.
+    destruct (pop1 r) as [[cls r']|] eqn:E'; [|exact Hst].
+    destruct (pop1_safe al _ _ _ E' Hr) as [Hc Hr'].
+    destruct (is_type cls); [|exact Hst].
+    apply do_call_safe; [apply set_stack_safe; assumption | exact Hc | exact Ha | exact Hr'].
+  - (* NEWOBJ_EX *) destruct (pop1 (stack st)) as [[kw r]|] eqn:E; [|exact Hst].
+    destruct (pop1_safe al _ _ _ E Hs) as [Hk Hr].
+    destruct (pop1 r) as [[args r']|] eqn:E'; [|exact Hst].
+    destruct (pop1_safe al _ _ _ E' Hr) as [Ha Hr'].
+    destruct (pop1 r') as [[cls r'']|] eqn:E''; [|exact Hst].
+    destruct (pop1_safe al _ _ _ E'' Hr') as [Hc Hr''].
+    destruct (is_type cls); [|exact Hst].
+    destruct args; try exact Hst. destruct kw; try exact Hst.
+    apply do_call_safe; [apply set_stack_safe; assumption | exact Hc | | exact Hr''].
+    match goal with |- safe_b _ (OTuple [?a; ?b]) = true =>
+      change (safe_b al a && (safe_b al b && true) = true) end.
+    rewrite Ha, Hk. reflexivity.
+  - (* REDUCE *) destruct (pop1 (stack st)) as [[args r]|] eqn:E; [|exact Hst].
+    destruct (pop1_safe al _ _ _ E Hs) as [Ha Hr].
+    destruct (pop1 r) as [[f r']|] eqn:E'; [|exact Hst].
+    destruct (pop1_safe al _ _ _ E' Hr) as [Hf Hr'].
+    destruct args; try exact Hst.
+    apply do_call_safe; [apply set_stack_safe; assumption | exact Hf | exact Ha | exact Hr'].
+  - (* BUILD *) destruct (pop1 (stack st)) as [[s_ r]|] eqn:E; [|exact Hst].
+    destruct (pop1_safe al _ _ _ E Hs) as [Hs_ Hr].
+    destruct (pop1 r) as [[inst r']|] eqn:E'; [|exact Hst].
+    destruct (pop1_safe al _ _ _ E' Hr) as [Hi Hr'].
+    assert (H1 : st_safe al (emit (EBuild inst s_) (set_stack st r))).
+    { apply emit_safe; [apply set_stack_safe; assumption|]. cbn. rewrite Hi, Hs_. reflexivity. }
+    destruct (build_ok w inst s_); [|exact H1].
+    destruct inst; try exact H1. cbn.
+    apply mutate_safe; [|exact H1].
+    cbn [safe_b] in *. apply andb_true_iff in Hi. destruct Hi as [Hi Hsts]. rewrite Hi. cbn.
+    apply forallb_app_true. split; [exact Hsts|]. cbn. rewrite Hs_. reflexivity.
+  - (* BINPERSID *) destruct (pop1 (stack st)) as [[pid r]|] eqn:E; [|exact Hst].
+    destruct (pop1_safe al _ _ _ E Hs) as [Hp Hr].
+    apply set_stack_safe; [apply emit_safe; [exact Hst | exact Hp]|].
+    cbn. rewrite persistent_load_safe, Hr. reflexivity.
+  - (* PERSID *) apply push_safe; [apply emit_safe; [exact Hst | reflexivity] | apply persistent_load_safe].
+  - apply do_ext_safe; exact Hst.
+  - apply do_ext_safe; exact Hst.
+  - apply do_ext_safe; exact Hst.
+Qed.
